@@ -91,7 +91,7 @@ package crlstore
 //@   props C18 C12 C16
 //@   requires storeOK(self)
 //@   assigns X.fs
-//@   ensures[C10,C18,C12,C16] empty_means_no_meta: !ret ==> storeHas(self, sum64(MetaInfoKey))
+//@   ensures[C10,C18,C12,C16,C03] empty_means_no_meta: !ret ==> storeHas(self, sum64(MetaInfoKey))
 
 //@ func CRLStore.Update
 //@   props C08 C11 C18
